@@ -2,7 +2,9 @@
 # Applies each seeded change to /repo, runs the quick check of the property it breaks, undoes it, and records
 # which obligations reported it in /verif/seeded/RESULTS.md.
 cd /verif
+if [ -n "$(git -C /repo status --porcelain)" ]; then echo "refusing to run: /repo has uncommitted changes (they would be lost by the undo step)"; exit 2; fi
 out=seeded/RESULTS.md
+[ -n "$1" ] && out=/tmp/seeded-partial.md
 echo "| change | property | caught | failed obligations |" > $out; echo "|---|---|---|---|" >> $out
 for d in seeded/C*/; do
   name=$(basename $d); prop=${name%%-*}
